@@ -629,3 +629,160 @@ func famStalePrefix(t *testing.T, seed int64, steps int) *Cluster {
 	c.converge(600 * time.Millisecond)
 	return c
 }
+
+// famVoteRestart: a voter N grants its vote to X in term T, crashes and restarts while still in term T, and is then
+// asked by Y (which never heard of term T's election) for a vote in the same term; the two quorums {X,N} and {Y,N}
+// overlap only in N (C01, C06).
+func famVoteRestart(t *testing.T, seed int64, steps int) *Cluster {
+	opt := DefaultOptions(seed)
+	opt.Family = "voterestart"
+	c := NewCluster(t, opt)
+	c.Bootstrap()
+	c.StartAll()
+	Y := c.WaitLeader(2 * time.Second)
+	if Y == "" {
+		return c
+	}
+	var others []string
+	for _, id := range opt.Servers {
+		if id != Y {
+			others = append(others, id)
+		}
+	}
+	X, N := others[int(seed)%2], others[1-int(seed)%2]
+	c.Apply(Y, 0)
+	c.Settle("client")
+	c.Drive(100*time.Millisecond, nil, nil)
+	if c.Leader() != Y {
+		c.converge(500 * time.Millisecond)
+		return c
+	}
+	T0 := c.byID[Y].Raft.CurrentTerm()
+	// the old leader Y is cut off; X wins the next term with N's vote; nothing X sends as leader reaches N;
+	// N's own campaign messages are held back so that X is the one that wins
+	c.isolate(Y)
+	c.dropPendingFrom(Y)
+	ok := c.Drive(3*time.Second, func(r *Rpc) bool {
+		if r.Src == N && (r.Kind == "pv" || r.Kind == "rv") {
+			return false
+		}
+		return !(r.Src == X && (r.Kind == "ae" || r.Kind == "hb"))
+	}, func() bool { return c.byID[X].Raft.State() == raft.Leader })
+	T := c.byID[X].Raft.CurrentTerm()
+	if !ok || T != T0+1 || c.byID[N].Raft.CurrentTerm() != T {
+		c.healAll()
+		c.converge(500 * time.Millisecond)
+		return c
+	}
+	// N restarts in term T; then X is the one cut off, and Y talks to N
+	c.Crash(N)
+	c.Settle("crash")
+	c.dropPendingFrom(N)
+	c.dropPendingFrom(X)
+	c.Start(N)
+	c.Settle("restart")
+	c.healAll()
+	c.isolate(X)
+	c.dropPendingFrom(X)
+	c.Drive(2*time.Second, func(r *Rpc) bool {
+		// only Y campaigns
+		return !(r.Src == N && (r.Kind == "pv" || r.Kind == "rv"))
+	}, func() bool { return c.byID[Y].Raft.State() == raft.Leader })
+	c.Drive(100*time.Millisecond, nil, nil)
+	c.healAll()
+	c.converge(500 * time.Millisecond)
+	return c
+}
+
+// famStaleRepl: a replication routine of a deposed leader wakes from a long back-off after the ex-leader has
+// learned the new term, and sends one more AppendEntries built from its stale log to a follower that has already
+// accepted (and the cluster committed) the new leader's entries at those indexes (C03, C01).
+func famStaleRepl(t *testing.T, seed int64, steps int) *Cluster {
+	opt := DefaultOptions(seed)
+	opt.Family = "stalerepl"
+	c := NewCluster(t, opt)
+	c.Bootstrap()
+	c.StartAll()
+	L := c.WaitLeader(2 * time.Second)
+	if L == "" {
+		return c
+	}
+	var others []string
+	for _, id := range opt.Servers {
+		if id != L {
+			others = append(others, id)
+		}
+	}
+	F, C := others[int(seed)%2], others[1-int(seed)%2]
+	c.Apply(L, 0)
+	c.Settle("client")
+	c.Drive(100*time.Millisecond, nil, nil)
+	// L cannot reach F for a while: the replication routine for F backs off further and further
+	c.Net.SetBlocked(L, F, true)
+	c.Tr.Emit("part", "", M{"op": "cut", "a": L, "b": F, "blocked": c.blockedJSON()})
+	c.Drive(time.Duration(1500+200*(seed%5))*time.Millisecond, nil, nil)
+	if c.Leader() != L {
+		c.healAll()
+		c.converge(500 * time.Millisecond)
+		return c
+	}
+	T := c.byID[L].Raft.CurrentTerm()
+	base := c.byID[L].Raft.LastIndex()
+	// L appends entries that reach nobody (its heartbeats keep its lease with C alive); the routine for F fails once
+	// more and goes to sleep again, this time inside an attempt that covers the new entries
+	for i := 0; i < 2; i++ {
+		c.Apply(L, 0)
+		c.Settle("client")
+	}
+	c.Drive(time.Duration(1400+100*(seed%4))*time.Millisecond, func(r *Rpc) bool {
+		return !(r.Src == L && r.Dst == C && r.Kind == "ae" && len(r.Req.(*raft.AppendEntriesRequest).Entries) > 0)
+	}, nil)
+	if c.Leader() != L || c.byID[C].Raft.LastIndex() > base {
+		c.healAll()
+		c.converge(500 * time.Millisecond)
+		return c
+	}
+	// the link works again, but nothing travels between L and F for now; L loses C as well
+	c.Net.SetBlocked(L, F, false)
+	c.Net.SetBlocked(L, C, true)
+	c.Tr.Emit("part", "", M{"op": "cut", "a": L, "b": C, "blocked": c.blockedJSON()})
+	c.dropPendingFrom(L)
+	hold := func(r *Rpc) bool { return !((r.Src == L && r.Dst == F) || (r.Src == F && r.Dst == L)) }
+	// C wins the next term with F's vote and commits at the same indexes
+	okC := c.Drive(800*time.Millisecond, func(r *Rpc) bool { return hold(r) && !(r.Src == F && (r.Kind == "pv" || r.Kind == "rv")) },
+		func() bool { return c.byID[C].Raft.State() == raft.Leader })
+	if okC {
+		for i := 0; i < 2; i++ {
+			c.Apply(C, 0)
+			c.Settle("client")
+		}
+		c.Drive(300*time.Millisecond, hold, func() bool { return c.byID[C].Raft.CommitIndex() >= base+3 && c.byID[F].Raft.LastIndex() >= base+3 })
+		// one heartbeat of C tells L about the new term; C's entries do not reach L yet
+		c.Net.SetBlocked(L, C, false)
+		c.Tr.Emit("part", "", M{"op": "uncut", "a": L, "b": C, "blocked": c.blockedJSON()})
+		c.Drive(300*time.Millisecond, func(r *Rpc) bool {
+			return hold(r) && !(r.Src == C && r.Dst == L && r.Kind != "hb") && !(r.Src == L && (r.Kind == "pv" || r.Kind == "rv"))
+		}, func() bool { return c.byID[L].Raft.CurrentTerm() > T })
+		// whatever L still sends to F gets through now; L's own log stays as it is
+		c.Drive(11*time.Second, func(r *Rpc) bool {
+			if r.Src == C && r.Dst == L && r.Kind != "hb" {
+				return false
+			}
+			if r.Src == L && (r.Kind == "pv" || r.Kind == "rv") {
+				return false
+			}
+			return true
+		}, func() bool {
+			for _, r := range c.Net.Pending() {
+				if r.Src == L && r.Dst == F && r.Kind == "ae" && r.Phase != phReq {
+					return true
+				}
+			}
+			return false
+		})
+		c.Drive(100*time.Millisecond, nil, nil)
+	}
+	c.healAll()
+	c.converge(500 * time.Millisecond)
+	return c
+}
